@@ -95,10 +95,7 @@ def diagnose (I : InstIn) (σ : Ty.TMap) : List Ty → List Json
           | some t => overridable I p || Ty.beq a t ||
               (match a with | .wild v (some x) => Ty.beq x t && !t.isWild && projAllowed I p ps v | _ => false)
         let proj := match a with
-          | .wild v bd => (match I.pre.get p with
-              | some t => Ty.beq a t
-              | none => (requestsBelow I p).any fun t => Ty.beq a t) ||
-              (bd.isSome && projAllowed I p ps v)
+          | .wild v bd => exemptProjection I σ p a || (bd.isSome && projAllowed I p ps v)
           | _ => true
         let fails := (if noPrim then [] else ["primitive-or-bare-constructor"]) ++ (if bnd then [] else ["outside-bound"]) ++
           (if kept then [] else ["requested-assignment-not-kept"]) ++ (if proj then [] else ["projection-not-permitted"])
@@ -158,13 +155,17 @@ def handle : Handler := fun op j =>
       let σ ← parseTMap tbl j "sigma"
       let v := j.getObjValD "targs"
       let targs ← if v.isNull then pure none else do pure (some (← idxList tbl v))
-      if instOK I σ targs then pure (res (Json.bool true))
+      if instOK I σ targs then pure (res (if preConsistent I then Json.bool true else Json.str "shape-only"))
       else
         let shape := match targs with
           | none => []
           | some as => if as.length == I.params.length && Ty.beqL as (I.params.filterMap σ.get) then []
                        else [Json.mkObj [("fails", ofStrList ["argument-list-differs-from-map"])]]
-        pure (res (Json.arr (shape ++ diagnose I σ I.params).toArray)))
+        pure (res (Json.arr (shape ++ (if preConsistent I then diagnose I σ I.params else
+          diagnose { I with pre := [] } σ I.params)).toArray)))
+  | "inst.pre_consistent" => some (do
+      let tbl ← parseTable j
+      pure (res (Json.bool (preConsistent (← parseInstIn tbl j)))))
   | "inst.sub_d" => some (do
       let tbl ← parseTable j
       pure (res (Json.bool (Ty.isSubDTop (← tyAt tbl j "s") (← tyAt tbl j "t")))))
